@@ -22,7 +22,7 @@ ASSUMPTIONS = ["np.bool_ and np.datetime64 values are not generated (not 'number
                "popitem may return any present item (documented as arbitrary)",
                "for invalid-UTF-8 bytes any exception satisfies 'raises'; for other non-serialisable values TypeError is required"]
 EXHAUSTIVE = None
-MUST_HIT = ['start:none', 'start:empty', 'start:given', 'kind:Array', 'kind:Ragged', 'update-empty-on-empty', 'pop-default-on-empty',
+MUST_HIT = ['start:none', 'start:empty', 'start:given', 'start:over-occupant-with-metadata', 'start:copy-over', 'start:empty-over', 'kind:Array', 'kind:Ragged', 'update-empty-on-empty', 'pop-default-on-empty',
             'last-key-removed', 'val:nparr', 'val:nonascii', 'val:npint', 'val:npfloat', 'val:bytes', 'val:nan', 'bad-update',
             'pop-missing-nodefault', 'del-missing', 'popitem-empty', 'reopen', 'update:kwargs', 'update:pairs']
 KEYS = ['a', 'b', 'ключ', 'k 4']
@@ -37,13 +37,22 @@ def st_leaf():
         st.builds(lambda v: {'t': 'str', 'v': v}, st.one_of(st.text(max_size=6), st.sampled_from(['é', '日本', '\x00\x1f', '\ud800', '"\\', 'a\nb']))),
         st.builds(lambda v: {'t': 'bool', 'v': v}, st.booleans()),
         st.just({'t': 'none'}),
-        st.builds(lambda dt, v: {'t': 'npint', 'dt': dt, 'v': v}, st.sampled_from(['int8', 'uint16', 'int64', 'uint64']), st.integers(0, 100)),
-        st.builds(lambda dt, v: {'t': 'npfloat', 'dt': dt, 'v': v}, st.sampled_from(['float16', 'float32', 'float64']),
-                  st.sampled_from(['0.1', '2.5', 'nan', 'inf', '-0.0', '1e-3'])),
-        st.builds(lambda dt, v: {'t': 'nparr', 'dt': dt, 'v': v}, st.sampled_from(['int16', 'uint8', 'float32', 'float64', 'int64']),
-                  st.one_of(st.lists(st.integers(0, 50), max_size=4), st.lists(st.lists(st.integers(0, 50), min_size=2, max_size=2), max_size=3))),
+        st.builds(lambda dt, v: {'t': 'npint', 'dt': dt, 'v': _clip(dt, v)},
+                  st.sampled_from(['int8', 'uint8', 'int16', 'uint16', 'int32', 'uint32', 'int64', 'uint64', 'intp', 'longlong']),
+                  st.one_of(st.integers(-100, 100), st.sampled_from([-2 ** 63, 2 ** 63 - 1, 2 ** 64 - 1, -2 ** 31, 2 ** 31, 255, -128, 65535]))),
+        st.builds(lambda dt, v: {'t': 'npfloat', 'dt': dt, 'v': v}, st.sampled_from(['float16', 'float32', 'float64', 'longdouble', 'half', 'single']),
+                  st.sampled_from(['0.1', '2.5', 'nan', 'inf', '-0.0', '1e-3', '65504.0', '-1e30'])),
+        st.builds(lambda dt, v: {'t': 'nparr', 'dt': dt, 'v': v},
+                  st.sampled_from(['int16', 'uint8', 'float32', 'float64', 'int64', 'float16', 'longdouble', 'uint64', 'int8', '>i4', '>f8']),
+                  st.one_of(st.lists(st.integers(0, 50), max_size=4), st.lists(st.lists(st.integers(0, 50), min_size=2, max_size=2), max_size=3),
+                            st.integers(0, 50))),      # an int spec = a 0-d array
         st.builds(lambda v: {'t': 'bytes', 'v': v.encode('utf-8').hex()}, st.text(max_size=5, alphabet=st.characters(exclude_categories=['Cs']))),
     )
+
+
+def _clip(dt, v):
+    ii = np.iinfo(np.dtype(dt))
+    return max(ii.min, min(ii.max, v))
 
 
 def st_value():
@@ -102,7 +111,7 @@ def model_value(vs):
         def conv(x):
             if isinstance(x, list):
                 return [conv(i) for i in x]
-            return float(np.dtype(vs['dt']).type(x)) if vs['dt'].startswith('float') else int(x)
+            return float(np.dtype(vs['dt']).type(x)) if np.dtype(vs['dt']).kind == 'f' else int(x)
         return conv(vs['v'])
     if t == 'bytes':
         return bytes.fromhex(vs['v']).decode('utf-8')
@@ -165,10 +174,10 @@ def st_op(draw):
 
 @st.composite
 def st_case(draw, max_ops=20):
-    start = draw(st.sampled_from(['none', 'empty', 'given']))
+    start = draw(st.sampled_from(['none', 'empty', 'given', 'none-over', 'empty-over', 'given-over', 'copy-over']))
     spec = {'kind': draw(st.sampled_from(['Array', 'Ragged'])), 'start': start,
             'ops': [draw(st_op()) for _ in range(draw(st.integers(1, max_ops)))]}
-    if start == 'given':
+    if start.startswith('given'):
         spec['given'] = [[k, draw(st_value())] for k in draw(st.lists(st.sampled_from(KEYS), min_size=1, max_size=3, unique=True))]
     return spec
 
@@ -238,18 +247,34 @@ def execute(ctx, spec):
         mfile = os.path.join(path, 'metadata.json')
         model = {}
         vcl = set()
-        if spec['start'] == 'given':
+        st0 = spec['start']
+        over = st0.endswith('-over')
+        if over:
+            # the path is occupied by another array that has metadata; the array under test is created over it (overwrite=True)
+            out.cls('start:over-occupant-with-metadata')
+            occ = {'old': 1, 'a': 'stale', 'ключ': [1, 2]}
+            if (len(spec['ops']) + len(kind)) % 2:
+                darr.asarray(path, np.arange(5, dtype='float32'), metadata=occ)
+            else:
+                darr.asraggedarray(path, [[1.5], [2.5, 3.5]], metadata=occ)
+        if st0.startswith('given'):
             mdarg = {k: build_value(v) for k, v in spec['given']}
             model = {k: model_value(v) for k, v in spec['given']}
             for _, v in spec['given']:
                 value_classes(v, vcl)
         else:
-            mdarg = {} if spec['start'] == 'empty' else None
+            mdarg = {} if st0.startswith('empty') else None
+        kw = {'overwrite': True} if over else {}
         try:
-            if kind == 'Array':
-                a = darr.asarray(path, np.arange(3, dtype='int16'), metadata=mdarg, accessmode='r+')
+            if st0 == 'copy-over':
+                # copy() of a source without metadata onto the occupied path
+                srcp = os.path.join(d, 'src.darr')
+                src = darr.asarray(srcp, np.arange(3, dtype='int16')) if kind == 'Array' else darr.asraggedarray(srcp, [[1, 2], [3]], dtype='int16')
+                a = src.copy(path, accessmode='r+', overwrite=True)
+            elif kind == 'Array':
+                a = darr.asarray(path, np.arange(3, dtype='int16'), metadata=mdarg, accessmode='r+', **kw)
             else:
-                a = darr.asraggedarray(path, [[1, 2], [3]], dtype='int16', metadata=mdarg, accessmode='r+')
+                a = darr.asraggedarray(path, [[1, 2], [3]], dtype='int16', metadata=mdarg, accessmode='r+', **kw)
         except Exception as e:
             out.viol('create-raised', f'create:{kind}:{spec["start"]}:{type(e).__name__}', f'{type(e).__name__}: {e}')
             return out
